@@ -77,6 +77,15 @@ where
         }
     }
 
+    /// Attach a middleware to this capability's client (verification hook:
+    /// exposes the crate-private `Client::with`, which no public API reaches)
+    #[cfg(crux_verif)]
+    #[must_use]
+    pub fn verif_with_client_middleware(mut self, middleware: impl middleware::Middleware) -> Self {
+        self.client = self.client.with(middleware);
+        self
+    }
+
     /// Instruct the Shell to perform a HTTP GET request to the provided `url`.
     ///
     /// The request can be configured via associated functions on `RequestBuilder`
